@@ -90,6 +90,7 @@ class Scenario(object):
         self.now = dt
         if not repeat:
             self.uni = [a for a in ASSETS if rng.random() < 0.6]
+            self.uni_obj = None                     # a new universe object; a repeated rebalance keeps using the same one
         k = rng.random()
         if repeat:
             pass
@@ -125,7 +126,10 @@ class Scenario(object):
         from qstrader.portcon.order_sizer.dollar_weighted import DollarWeightedCashBufferedOrderSizer
         from qstrader.portcon.order_sizer.long_short import LongShortLeveragedOrderSizer
         from qstrader.portcon.pcm import PortfolioConstructionModel
-        uni = StaticUniverse(list(self.uni))
+        if getattr(self, "uni_obj", None) is None:
+            self.uni_list = list(self.uni)          # the caller's own list, handed to the universe as the API expects
+            self.uni_obj = StaticUniverse(self.uni_list)
+        uni = self.uni_obj
         if self.kind == "dw":
             sizer = DollarWeightedCashBufferedOrderSizer(self.broker, "pf", self.handler, cash_buffer_percentage=float(Fraction(self.par)))
         else:
@@ -152,6 +156,7 @@ class Scenario(object):
             self.broker.update(ts(next_open))
             self.now = next_open
             res["holdings"] = dict((a, int(v["quantity"])) for a, v in self.broker.get_portfolio_as_dict("pf").items())
+        res["universe_after"] = list(uni.get_assets(ts(self.now)))
         return res
 
 
@@ -237,7 +242,7 @@ def run(prop, replay_file=None):
     rep = Report(prop)
     t, sd = tier(), seed()
     rep.assumptions = ["exact dyadic grid (sizing boundaries are C10/C11's subject); every asset of interest has a quote",
-                       "fixed-weight optimiser; alpha model = fixed dictionary or absent; static universe chosen afresh at every rebalance"]
+                       "fixed-weight optimiser; alpha model = fixed dictionary or absent; static universe chosen afresh at the first two rebalances, the third reuses the second's universe object"]
     n = 250 if t == "quick" else 12000
     if replay_file:
         payload = json.load(open(replay_file))
